@@ -11,13 +11,17 @@ spice / spectre netlisters answered against Spec/C06Accept.v).  Packages come fr
   foreign       the design generators of OTHER properties (C01 bundle fragment, C05 adversarial names, C10 bundle trees,
                 C15 PDK compilation incl. ASAP7 default sizes, C16 flatten, C19 Series/MosStack/Wrapper) run through their own
                 implementation drivers; every package any to_proto call returns there is captured (DESIGN.md 6.9)
+  histories     (round 2) export / elaborate / netlist a design, point an instance below the top at a never-elaborated Module, export
+                the same top again - on ONE interpreter state; every package returned on the way is judged
+  held-names    (round 2) a Module holds an attribute under a name it does not carry (one object under two keys, re-naming); refusal is
+                tied to Model/C06Held.v
 and the exporter model (Model/C06Export.v) is tied to the implementation on every `designs` / `stressed` / corpus design:
 module order, per-module references in instance order, external declarations in order, refusal on name conflicts."""
 import json, copy
 from . import core, design as D
 from .core import cstr, cz, clist
 
-IMPORTS = ("Require Import Hdl21.Base.PyInt Hdl21.Base.Design Hdl21.Base.Package Hdl21.Model.C06Export Hdl21.Corr.C03 Hdl21.Corr.C06.")
+IMPORTS = ("Require Import Hdl21.Base.PyInt Hdl21.Base.Design Hdl21.Base.Package Hdl21.Model.C06Export Hdl21.Model.C06Held Hdl21.Corr.C03 Hdl21.Corr.C06.")
 EXAMPLES = ["ro", "rdac", "encoder", "mos_sim", "diff_ota", "idac", "bundles"]
 MODEL_TYPES = ["RESISTOR", "CAPACITOR", "MOS", "DIODE", "BIPOLAR", "VSOURCE", "TLINE"]
 PRIM_CLASS = {"Mos": "Mos", "R": "IdealResistor", "C": "IdealCapacitor", "Bjt": "Bipolar", "D": "Diode", "Res3": "ThreeTerminalResistor",
@@ -220,6 +224,222 @@ def corpus_driver_jobs():
         ("vsin-without-parameters", dict(source="driver", driver="c19", fn="do",
                                          arg=dict(gen="wrapper", unit=dict(kind="prim", name="SineVoltageSource"))), "finding"),
     ]
+
+
+# ------------------------------------------------------------------------------------------------ histories (strengthening round 2)
+LATE_FAULTS = ["missing", "width", "extra", "array_width", "array_missing", "width_ref"]
+DEVS_RC = [("R", 2), ("C", 2)]
+
+
+def _copy_late(d, k, subtree):
+    """Append a copy of module k (with `subtree`: of everything below it too) under new names; returns {old index: new index}."""
+    todo, order = [k], []
+    while todo:
+        a = todo.pop()
+        if a in order:
+            continue
+        order.append(a)
+        if subtree:
+            todo += [x["of"][1] for x in d["mods"][a]["insts"] if x["of"][0] == "mod"]
+    order.sort()                         # children keep a lower index than their parents
+    remap = {}
+    for a in order:
+        md = copy.deepcopy(d["mods"][a])
+        md["name"] = md["name"] + "V2"
+        remap[a] = len(d["mods"])
+        d["mods"].append(md)
+    for a in order:
+        for x in d["mods"][remap[a]]["insts"]:
+            if x["of"][0] == "mod" and x["of"][1] in remap:
+                x["of"][1] = remap[x["of"][1]]
+    return remap
+
+
+def _iface_change(r, md):
+    """Another port list for the (otherwise valid) late module: a port added; a port the module does not use dropped or resized."""
+    s = json.dumps(md["insts"])
+    unused = [p for p in md["ports"] if json.dumps(["sig", p[0]]) not in s]
+    u = r.random()
+    if unused and u < 0.8:
+        p = r.choice(unused)
+        if u < 0.25:
+            md["ports"].remove(p)
+            return "port-dropped"
+        p[1] += r.choice([1, 2])
+        return "port-resized"
+    md["ports"].append(["zq", r.choice([1, 2]), "inout"])
+    return "port-added"
+
+
+def gen_history(r, mode=None):
+    """A valid design, exported / elaborated / netlisted; then an instance below the top is pointed at a Module that has never been
+    elaborated (a revised copy of its target: the assignment HierarchyWalker, PDK compilation and a designer make); then the same top
+    is exported again. mode: same (valid copy) | fault (one connection fault only elaboration reports, in the copy) | subtree-fault
+    (copy of the whole sub-hierarchy, fault anywhere in it) | iface (valid copy with another port list: the PARENT no longer fits) |
+    none-first (no elaboration before the re-targeting)."""
+    from . import c02 as M
+    mode = mode or r.choice(["same", "same", "fault", "fault", "subtree-fault", "iface", "none-first"])
+    for _ in range(60):
+        d = D.gen_design(r, size=r.choice([2, 3]), devs=DEVS_RC, reconnect=r.random() < 0.3)
+        reach = sorted(M.reachable(d))
+        sites = [(pi, x) for pi in reach for x in d["mods"][pi]["insts"] if x["of"][0] == "mod"]
+        if not sites:
+            continue
+        pi, x = r.choice(sites)
+        k = x["of"][1]
+        n0 = len(d["mods"])
+        remap = _copy_late(d, k, subtree=(mode == "subtree-fault" or r.random() < 0.25))
+        L = remap[k]
+        late = sorted(remap.values())
+        info = dict(mode=mode)
+        if mode in ("fault", "subtree-fault"):
+            st = [s for s in M.sites(d) if s[0] in late]
+            done = None
+            for _ in range(12):
+                if not st:
+                    break
+                kind = r.choice(LATE_FAULTS)
+                done = M.MUTATORS[kind](r, copy.deepcopy(d), r.choice(st))
+                if done is not None:
+                    d, info["fault"] = done, kind
+                    break
+            if done is None:
+                continue
+        if mode == "iface":
+            info["iface"] = _iface_change(r, d["mods"][L])
+        top = d["top"]
+        first = None if mode == "none-first" else r.choice([["export", top], ["export", top], ["elaborate", top], ["netlist", top, "spice"],
+                                                            ["export", pi], ["elaborate", pi], ["export2", pi, top]])
+        ops = ([first] if first else []) + [["retarget", pi, k, L, r.choice([None, None, 0, 1])], ["export", top]]
+        if r.random() < 0.3:
+            ops += [["retarget", pi, L, k, None], ["export", top]]          # and back to the original child
+        d["late"] = late if r.random() < 0.7 else []                        # built when first needed / built with the rest
+        info["late_arrays"] = int(any(y["n"] > 0 for a in late for y in d["mods"][a]["insts"]))
+        info["late_needs_elab"] = int(any(t in json.dumps([d["mods"][a]["insts"] for a in late]) for t in ('"ref"', '"nc"', '"cat"', '"sl"'))
+                                      or info["late_arrays"])
+        return dict(source="history", design=d, ops=ops, hist=info)
+    return None
+
+
+def _hist_corpus():
+    """fixed histories: (label, job)"""
+    leaf = dict(name="Leaf", ports=[["a", 1, "inout"], ["b", 2, "inout"]], sigs=[], insts=[
+        dict(name="r", n=0, of=["prim", "R", 1], conns=[["p", ["sig", "a"]], ["n", ["sl", ["sig", "b"], ["i", 0]]]])])
+    child = lambda name, insts, ports=None: dict(name=name, ports=ports or [["p", 1, "inout"], ["q", 2, "inout"]], sigs=[], insts=insts)
+    li = lambda name, conns: dict(name=name, n=0, of=["mod", 0], conns=conns)
+    ri = lambda name, conns, n=0: dict(name=name, n=n, of=["prim", "R", 1], conns=conns)
+    v1 = child("ChildV1", [li("leaf", [["a", ["sig", "p"]], ["b", ["sig", "q"]]])])
+    top = dict(name="Top", ports=[], sigs=[["s", 1], ["t", 2]], insts=[
+        dict(name="c", n=0, of=["mod", 1], conns=[["p", ["sig", "s"]], ["q", ["sig", "t"]]])])
+    ops = [["export", 2], ["retarget", 2, 1, 3, None], ["export", 2]]
+    mk = lambda v2, late=(3,): dict(source="history", design=dict(mods=[leaf, v1, top, v2], exts=[], top=2, late=list(late)), ops=ops)
+    out = []
+    # the seeded change C06r4-B: the revised child leaves a port of a Module / of a primitive unconnected, feeds a port a wrong width
+    out.append(("revised-child-module-port-unconnected", mk(child("ChildV2", [li("leaf1", [["a", ["sig", "p"]]]),
+                                                                              li("leaf2", [["a", ["sig", "p"]], ["b", ["sig", "p"]]])]))))
+    out.append(("revised-child-primitive-port-unconnected", mk(child("ChildV2", [ri("r1", [["p", ["sig", "p"]]])]))))
+    out.append(("revised-child-primitive-wrong-width", mk(child("ChildV2", [ri("r1", [["p", ["sig", "p"]], ["n", ["sig", "q"]]])]))))
+    out.append(("revised-child-with-array-and-slices", mk(child("ChildV2", [
+        ri("ra", [["p", ["sig", "p"]], ["n", ["sig", "q"]]], n=2), ri("rb", [["p", ["sl", ["sig", "q"], ["i", 1]]], ["n", ["ref", "rc", "p"]]]),
+        ri("rc", [["n", ["sig", "p"]]])]))))
+    # fixes/C06-2: the revised child is valid but has another port list: the PARENT, elaborated before, no longer fits
+    out.append(("revised-child-other-ports", mk(child("ChildV2", [ri("r1", [["p", ["sig", "p"]], ["n", ["sl", ["sig", "q"], ["i", 2]]]])],
+                                                      ports=[["p", 1, "inout"], ["q", 3, "inout"], ["r", 1, "inout"]]))))
+    out.append(("revised-child-other-width", mk(child("ChildV2", [ri("r1", [["p", ["sig", "p"]], ["n", ["sl", ["sig", "q"], ["i", 2]]]])],
+                                                      ports=[["p", 1, "inout"], ["q", 3, "inout"]]))))
+    return out
+
+
+# ------------------------------------------------------------------------------------------------ held names
+def held_model(md):
+    """The Module's namespace as the model sees it: operations (HSet key obj | HRename obj name) in the order the builder and the
+    held-name operations perform them. Objects are numbered in creation order."""
+    ops, ns = [], {}
+    nxt = [0]
+    def new(key):
+        ns[key] = nxt[0]
+        ops.append(["set", key, nxt[0]])
+        nxt[0] += 1
+    for p in md["ports"]:
+        new(p[0])
+    for g in md["sigs"]:
+        new(g[0])
+    for x in md["insts"]:
+        new(x["name"])
+    for op in md.get("held", []):
+        if op[0] == "alias":
+            ns[op[2]] = ns[op[1]]
+            ops.append(["set", op[2], ns[op[1]]])
+        elif op[0] == "rename":
+            ops.append(["ren", ns[op[1]], op[2]])
+        elif op[0] == "replace":
+            new(op[1])
+    if md.get("style") == "classbody":
+        # h.module makes a NEW Module and sets every key of the class namespace on it: each object takes (again) the name of the key it
+        # is bound to, the last one if it is bound to several; what was re-named before is named by its key again
+        ops = [["set", key, o] for key, o in ns.items()]
+    return ops
+
+
+def gen_held(r):
+    """A valid design in which ONE module then holds an attribute under a name it does not carry (one object under two keys: chained
+    assignment in a class body, m.second = m.first, m.add; or an attribute re-named after it was added) - Orphanage must refuse it,
+    the exporter would write the carried name twice - or (valid) has an instance replaced under its own key."""
+    from . import c02 as M
+    for _ in range(40):
+        d = D.gen_design(r, size=r.choice([1, 2, 2]), devs=DEVS_RC, arrays=r.random() < 0.6)
+        mi = r.choice(sorted(M.reachable(d)))
+        md = d["mods"][mi]
+        names = dict(port=[p[0] for p in md["ports"]], sig=[g[0] for g in md["sigs"]],
+                     inst=[x["name"] for x in md["insts"] if x["n"] == 0], array=[x["name"] for x in md["insts"] if x["n"] > 0])
+        kind = r.choice(["inst", "inst", "inst", "array", "array", "sig", "port"])
+        if not names[kind]:
+            continue
+        old = r.choice(names[kind])
+        allnames = [n for v in names.values() for n in v]
+        what = r.choice(["alias", "alias", "rename", "rename", "replace"])
+        if what == "alias":
+            new = r.choice([old + "b", old + "b", r.choice(allnames)])
+            if new == old:
+                continue
+            md["held"] = [["alias", old, new, r.choice(["setattr", "add"])]]
+        elif what == "rename":
+            new = r.choice([old + "b", r.choice(names[kind]), r.choice(allnames)])
+            if new == old:
+                continue
+            md["held"] = [["rename", old, new]]
+        else:
+            if kind not in ("inst", "array") or json.dumps(["ref", old])[:-1] in json.dumps(md["insts"]):
+                continue
+            x = D.find_inst(md, old)
+            if any(c[1][0] in ("ref",) for c in x["conns"]):
+                continue
+            md["held"] = [["replace", old]]
+        if md.get("lib") is None and r.random() < 0.4:
+            md["style"] = "classbody"
+        return dict(source="history", design=d, ops=[["export", d["top"]]], held=dict(mod=mi, kind=kind, what=what, style=md.get("style", "proc")))
+    return None
+
+
+def _held_corpus():
+    inv = dict(name="Inv", ports=[["i", 1, "in"], ["o", 1, "out"]], sigs=[], insts=[
+        dict(name="r", n=0, of=["prim", "R", 1], conns=[["p", ["sig", "i"]], ["n", ["sig", "o"]]])])
+    ii = lambda name, a, b: dict(name=name, n=0, of=["mod", 0], conns=[["i", ["sig", a]], ["o", ["sig", b]]])
+    buf = lambda held, style=None, insts=None: dict(name="Buf", ports=[["a", 1, "in"], ["z", 1, "out"]], sigs=[["mid", 1]],
+                                                     insts=insts or [ii("first", "a", "mid")], held=held, **({"style": style} if style else {}))
+    mk = lambda b: dict(source="history", design=dict(mods=[inv, b], exts=[], top=1), ops=[["export", 1]], held=dict(mod=1, kind="inst", what=b["held"][0][0],
+                                                                                                                      style=b.get("style", "proc")))
+    return [("chained-assignment-in-class-body", mk(buf([["alias", "first", "second", "setattr"]], style="classbody"))),
+            ("one-instance-under-two-names", mk(buf([["alias", "first", "second", "setattr"]]))),
+            ("instance-renamed-after-adding", mk(buf([["rename", "first", "second"]], insts=[ii("first", "a", "mid"), ii("second", "mid", "z")]))),
+            ("signal-under-two-names", mk(buf([["alias", "mid", "mid2", "setattr"]]))),
+            ("instance-replaced-under-its-key", mk(buf([["replace", "first"]])))]
+
+
+def c_held_case(job, out):
+    md = job["design"]["mods"][job["held"]["mod"]]
+    hop = lambda o: f"HSet {cstr(o[1])} {o[2]}%nat" if o[0] == "set" else f"HRename {o[1]}%nat {cstr(o[2])}"
+    return f"{{| hc_ops := {clist(held_model(md), hop)}; hc_refused := {'false' if out['pkgs'] else 'true'} |}}"
 
 
 # ------------------------------------------------------------------------------------------------ Coq printers
@@ -428,6 +648,18 @@ def run(run, tier, seed, replay=None):
         made += 1
         stress_kinds[kind] = stress_kinds.get(kind, 0) + 1
         jobs.append(dict(source="design", design=mut, stress=kind))
+    # histories: a design is exported / elaborated, an instance below the top is pointed at a never-elaborated Module, the top is
+    # exported again; and designs in which a Module holds an attribute under a name it does not carry
+    for label, j in _hist_corpus() + _held_corpus():
+        jobs.append(dict(j, corpus=label, expect="any"))
+    for k in range(140 if quick else 3000):
+        j = gen_history(core.rng(seed, "C06", "history", k))
+        if j is not None:
+            jobs.append(j)
+    for k in range(90 if quick else 2000):
+        j = gen_held(core.rng(seed, "C06", "held", k))
+        if j is not None:
+            jobs.append(j)
     fj = foreign_jobs(seed, quick)
     jobs += fj
     if replay is not None:
@@ -435,14 +667,14 @@ def run(run, tier, seed, replay=None):
     # examples share process-global caches with nothing: one interpreter per example; everything else sharded
     ex_jobs = [j for j in jobs if j["source"] == "example"]
     other = [j for j in jobs if j["source"] != "example"]
-    strip = lambda j: {k: v for k, v in j.items() if k not in ("feats", "corpus", "expect", "enriched", "stress")}
+    strip = lambda j: {k: v for k, v in j.items() if k not in ("feats", "corpus", "expect", "enriched", "stress", "hist", "held")}
     ex_outs = [core.run_worker("c06", dict(jobs=[strip(j)]), timeout=600)["results"][0] for j in ex_jobs]
     other_outs = core.run_worker_sharded("c06", [strip(j) for j in other])
     jobs = ex_jobs + other
     outs = ex_outs + other_outs
     pk, owner = [], []
     for ji, o in enumerate(outs):
-        if o["err"] is not None and jobs[ji]["source"] not in ("design", "driver"):
+        if o["err"] is not None and jobs[ji]["source"] not in ("design", "driver", "history"):
             run.violation(f"C06:source:{json.dumps(jobs[ji], sort_keys=True)[:200]}", f"package source failed: {o['err']}",
                           dict(kind="source-failed", job=jobs[ji], err=o["err"]), found_input=False)
         if o["err"] is not None and jobs[ji]["source"] == "driver":
@@ -513,7 +745,7 @@ def run(run, tier, seed, replay=None):
         if j.get("expect") == "refused" and outs[ji]["pkgs"]:
             run.violation("C06:corpus:" + j["corpus"], "to_proto returned a package for two ExternalModules of one (domain, name) with different declarations",
                           dict(kind="impl-violates-spec", job=strip(j), pkg=outs[ji]["pkgs"][0]["pkg"]))
-        if j.get("expect") in ("ok", "finding") and not outs[ji]["pkgs"]:
+        if j.get("expect") in ("ok", "finding") and not outs[ji]["pkgs"]:   # ("any": history / held witnesses - refusing is right too)
             run.violation("C06:corpus:" + j["corpus"], f"corpus design was not exported: {outs[ji]['err']}",
                           dict(kind="source-failed", job=strip(j), err=outs[ji]["err"]), found_input=False)
         if j.get("expect") == "finding" and outs[ji]["pkgs"] and not any(1 for i, c in bad if c in (50, 51) and owner[i] == ji):
@@ -529,6 +761,84 @@ def run(run, tier, seed, replay=None):
                       "exporter model and implementation differ (module order / references / external declarations / refusal)" if code == 2
                       else "exporter model could not be evaluated (unknown primitive or fuel)",
                       dict(kind="tie-broken", job=strip(jobs[ji]), impl=outs[ji], code=code, failing=len(obad)), found_input=False)
+    # ---- histories and held names: tie of the held-name model; coverage targets (fail closed)
+    hj = [ji for ji, j in enumerate(jobs) if j["source"] == "history"]
+    for ji in hj:
+        if outs[ji]["err"] is not None:         # the builder itself failed: the history was never run
+            run.violation("C06:history-build:" + key_of(ji), f"history could not be built: {outs[ji]['err']}",
+                          dict(kind="source-failed", job=strip(jobs[ji]), err=outs[ji]["err"]), found_input=False)
+    heldj = [ji for ji in hj if jobs[ji].get("held") and outs[ji]["err"] is None]
+    hbad = core.coq_eval_cases("C06", "held", IMPORTS, "c06_held_case", [c_held_case(jobs[ji], outs[ji]) for ji in heldj],
+                               "run_cases chk_c06_held", chunk=100)
+    for i, code in sorted(hbad, key=lambda ic: len(json.dumps(jobs[heldj[ic[0]]]["design"])))[:2]:
+        ji = heldj[i]
+        run.violation("C06:held-tie:" + key_of(ji),
+                      "held-name model and implementation differ: " + ("a Module holding an attribute under a name it does not carry was exported"
+                                                                      if outs[ji]["pkgs"] else "a Module whose attributes carry the names they are held under was refused"),
+                      dict(kind="tie-broken", job=strip(jobs[ji]), held=jobs[ji]["held"], impl=dict(log=outs[ji].get("log"), pkgs=len(outs[ji]["pkgs"])),
+                           code=code, failing=len(hbad)), found_input=bool(outs[ji]["pkgs"]))
+    hstat = dict(jobs=0, by_mode={}, exported_after_retarget=0, refused_after_retarget=0, after_elaboration=0,
+                 late_needs_elab_exported=0, late_arrays_exported=0, fault_refused=0, fault_exported=0, iface_refused=0, iface_exported=0,
+                 back_exported=0, iface_refused_by_kind={})
+    for ji in hj:
+        info = jobs[ji].get("hist")
+        log = outs[ji].get("log")
+        if info is None and jobs[ji].get("corpus") and not jobs[ji].get("held"):
+            info = dict(mode="corpus")
+        if info is None or log is None:
+            continue
+        hstat["jobs"] += 1
+        hstat["by_mode"][info["mode"]] = hstat["by_mode"].get(info["mode"], 0) + 1
+        ops = jobs[ji]["ops"]
+        first_rt = [i for i, o in enumerate(ops) if o[0] == "retarget"][0]
+        elaborated_before = any(l["err"] is None for l in log[:first_rt])
+        nxt = log[first_rt + 1]
+        moved = log[first_rt].get("moved", 0) > 0
+        ok = nxt["err"] is None and nxt.get("pkgs", 0) > 0
+        if moved and elaborated_before:
+            hstat["after_elaboration"] += 1
+            hstat["exported_after_retarget" if ok else "refused_after_retarget"] += 1
+            if ok:
+                hstat["late_needs_elab_exported"] += info.get("late_needs_elab", 0)
+                hstat["late_arrays_exported"] += info.get("late_arrays", 0)
+            if info["mode"] in ("fault", "subtree-fault"):
+                hstat["fault_exported" if ok else "fault_refused"] += 1
+            if info["mode"] == "iface":
+                hstat["iface_exported" if ok else "iface_refused"] += 1
+                if not ok:
+                    hstat["iface_refused_by_kind"][info["iface"]] = hstat["iface_refused_by_kind"].get(info["iface"], 0) + 1
+            if len(log) > first_rt + 3 and log[first_rt + 3]["err"] is None:
+                hstat["back_exported"] += 1
+    hstat["packages"] = sum(1 for i in range(len(pk)) if jobs[owner[i]]["source"] == "history" and not jobs[owner[i]].get("held"))
+    run.stream("histories", hstat["jobs"], len({json.dumps(strip(jobs[ji]), sort_keys=True) for ji in hj if jobs[ji].get("hist")
+                                                 and jobs[ji]["hist"]["mode"] != "none-first"}), **hstat,
+               rule="export / elaborate / netlist, re-target an instance below the top to a never-elaborated Module (valid copy, copy with one "
+                    "connection fault, copy of the sub-hierarchy with a fault, valid copy with another port list), export the top again (and back); "
+                    "every returned package judged by wf_pkg_full and the consumers; non-trivial = something was elaborated before the re-targeting")
+    hk = dict(jobs=len(heldj), refused=0, exported=0, by_what={}, by_kind={}, classbody=0, exported_consistent=0)
+    for ji in heldj:
+        h_ = jobs[ji]["held"]
+        hk["refused" if not outs[ji]["pkgs"] else "exported"] += 1
+        hk["by_what"][h_["what"]] = hk["by_what"].get(h_["what"], 0) + 1
+        hk["by_kind"][h_["kind"]] = hk["by_kind"].get(h_["kind"], 0) + 1
+        hk["classbody"] += int(h_["style"] == "classbody")
+        hk["exported_consistent"] += int((h_["what"] == "replace" or (h_["what"], h_["style"]) == ("rename", "classbody")) and bool(outs[ji]["pkgs"]))
+    run.stream("held-names", len(heldj), len({json.dumps(strip(jobs[ji]), sort_keys=True) for ji in heldj}), **hk,
+               rule="valid designs in which one module then holds an attribute (instance, array, signal, port) under a name it does not carry "
+                    "(alias by setattr / add / class body, re-naming) or has an instance replaced under its key (consistent); refusal tied to "
+                    "Model/C06Held.v, returned packages judged by wf_pkg_full; all count")
+    if replay is None:
+        targets = [("history:exported-after-retarget", hstat["exported_after_retarget"], 20), ("history:late-needs-elaboration", hstat["late_needs_elab_exported"], 10),
+                   ("history:late-arrays", hstat["late_arrays_exported"], 3), ("history:fault-refused", hstat["fault_refused"], 15),
+                   ("history:iface-refused", hstat["iface_refused"], 5), ("history:iface-resized-refused", hstat["iface_refused_by_kind"].get("port-resized", 0), 2),
+                   ("history:iface-added-refused", hstat["iface_refused_by_kind"].get("port-added", 0), 1), ("history:back-exported", hstat["back_exported"], 5),
+                   ("held:refused", hk["refused"], 30), ("held:alias", hk["by_what"].get("alias", 0), 10), ("held:rename", hk["by_what"].get("rename", 0), 10),
+                   ("held:classbody", hk["classbody"], 5), ("held:instances", hk["by_kind"].get("inst", 0), 15),
+                   ("held:replace-exported", hk["exported_consistent"], 3)]
+        for name, got, need in targets:
+            if got < need:
+                run.violation("C06:coverage:" + name, f"coverage target missed: {name} = {got} < {need} (fail closed)",
+                              dict(kind="coverage", histories=hstat, held=hk), found_input=False)
     # ---- evidence
     by_src = {}
     for ji in owner:
